@@ -8,7 +8,7 @@ import common
 TITLE = 'All replicas of a board agree with the table manager'
 LEAN_TARGETS = ['BridgeVerif.Props.C11', 'BridgeVerif.Props.C11a', 'BridgeVerif.Translated.Play', 'BridgeVerif.Translated.NetHelpers', 'BridgeVerif.Translated.ThreadsClientA']
 AUDIT_PROPS = ['C11', 'C11a', 'Translated.Play', 'Translated.NetHelpers', 'Translated.ThreadsClientA']
-REQUIRED = ['Translated.ThreadsClientA.client_deal_translated', 'Translated.ThreadsClientA.client_bidding_translated', 'Translated.ThreadsClientA.client_connect_translated', 'Translated.ThreadsClientA.create_bid_message_translated', 
+REQUIRED = ['Translated.ThreadsClientA.client_deal_translated', 'Translated.ThreadsClientA.client_bidding_translated', 'Translated.ThreadsClientA.client_connect_translated', 
             'Translated.NetHelpers.nh_weak_bid_translated',
             'Translated.Play.observed_play_translated', 'Translated.Play.observed_init_translated', 'Translated.Play.play_card_translated',
             'server_reads_the_calls', 'client_auction_replica', 'client_contract_is_servers', 'server_plays_the_cards',
